@@ -28,6 +28,12 @@ class ReadBase(Engine):
     keep_prefix = 2      # 'load' and the reference run stay when a case is shrunk
     _baseline = None
 
+    def oracle(self, case, impl):
+        # the reference run (well-formed input, whole bodies read): no body may be longer than the entry's size
+        if len(impl) > 1 and ' cons=A ' in (case.ops[1] if len(case.ops) > 1 else '') and 'LONG' in impl[1]:
+            return "archive_read_data delivered more bytes than the entry's size (flag LONG in the all-read run)"
+        return None
+
     def baseline(self):
         """All-read reference record of every reference archive, from the implementation under test."""
         if ReadBase._baseline is not None and ReadBase._baseline[0] == self.exe:
@@ -209,17 +215,24 @@ class Cons(ReadBase):
             for v in vecs[:4 if tier == 'quick' else 12]:
                 ops.append(f'run blk={blk} src={src} cons={",".join(v)} trunc=- fault=-')
             yield Case(f'cons:{name}', ops)
-        for label, mk, size in made_archives(rng, 40 if tier == 'quick' else 300):
-            src = rng.choice(['cbk', 'cbk', 'cb', 'cbs'])
+        # every writable format under a seekable and under a purely sequential source, then random combinations
+        cover = [(f'{fmt}+none', f'make fmt={fmt} filt=none seed={rng.randrange(1, 10**6)} n={rng.choice([3, 6])}', 60000, s_)
+                 for fmt in MAKE_FORMATS for s_ in ('cbk', 'cb')]
+        for label, mk, size, fsrc in cover + [m + (None,) for m in made_archives(rng, 20 if tier == 'quick' else 300)]:
+            src = fsrc or rng.choice(['cbk', 'cbk', 'cb', 'cbs'])
             blk = rng.choice(['w', '512', '10240', 'r7'])
             ops = [mk, f'run blk={blk} src={src} cons=A trunc=- fault=-']
             vecs = [['B'], ['a'], ['S'], ['N'], ['P10'], ['P1000'], ['R512']]
+            if fsrc:
+                vecs = [['P10'], ['P1000,S,A'], ['B'], ['S']] + vecs
             for _ in range(4):
                 vecs.append([rng.choice(CONS) for _ in range(rng.choice([2, 3, 5]))])
-            rng.shuffle(vecs)
+            if not fsrc:
+                rng.shuffle(vecs)
             for v in vecs[:4 if tier == 'quick' else 10]:
                 ops.append(f'run blk={blk} src={src} cons={",".join(v)} trunc=- fault=-')
             yield Case(f'cons:made:{label}', ops)
+
 
 
 class Trunc(ReadBase):
@@ -244,7 +257,13 @@ class Trunc(ReadBase):
                 fb = blk if blk != 'w' else rng.choice(['512', 'w'])
                 ops.append(f'run blk={fb} src={src} cons=A trunc=- fault={kind}@{idx}')
             yield Case(f'trunc:{name}', ops)
-        for label, mk, size in made_archives(rng, 30 if tier == 'quick' else 200):
+        # every writable format once without filter, every structural option set of the container formats once,
+        # then random format/filter/option combinations
+        cover = [(f'{fmt}+none', f'make fmt={fmt} filt=none seed={rng.randrange(1, 10**6)} n={rng.choice([3, 6])}', 60000)
+                 for fmt in MAKE_FORMATS]
+        cover += [(f'{fmt}+none', f'make fmt={fmt} filt=none seed={rng.randrange(1, 10**6)} n={rng.choice([3, 6])} opt={o}', 60000)
+                  for fmt in ('7zip', 'zip', 'xar', 'iso9660', 'mtree') for o in MAKE_OPTIONS[fmt]]
+        for label, mk, size in cover + made_archives(rng, 12 if tier == 'quick' else 200):
             src = rng.choice(['cbk', 'cb', 'cbs'])
             blk = rng.choice(['w', '512', '10240', '513'])
             ops = [mk, f'run blk={blk} src={src} cons=A trunc=- fault=-']
@@ -261,15 +280,17 @@ class Trunc(ReadBase):
         # filter-only streams read through the raw format: nothing but the filter's own framing can
         # report a cut, so a truncated body must come with the filter's error
         for filt in ['gzip', 'bzip2', 'xz', 'zstd', 'lz4', 'lzip', 'uuencode', 'b64encode']:
-            for _ in range(1 if tier == 'quick' else 6):
+            # every option set of the filter, every time: options decide which of the filter's own checks
+            # (block/stream checksums, trailers, frame ends) is the one that has to notice the cut
+            for opt in ([''] + [' opt=' + o for o in MAKE_OPTIONS.get(filt, [])]) * (1 if tier == 'quick' else 3):
                 seed = rng.randrange(1, 10 ** 6)
                 src = rng.choice(['cbk', 'cb', 'cbs'])
                 blk = rng.choice(['w', '512', '10240'])
-                mk = f'make fmt=raw filt={filt} seed={seed} n=1' + make_opt(rng, 'raw', filt, 0.7)
+                mk = f'make fmt=raw filt={filt} seed={seed} n=1' + opt
                 ops = [mk, f'run blk={blk} src={src} cons=A trunc=- fault=- raw=1']
-                for _ in range(6 if tier == 'quick' else 60):
+                for _ in range(3 if tier == 'quick' else 40):
                     ops.append(f'run blk={blk} src={src} cons=A trunc={rng.randrange(160, 160000)} fault=- raw=1')   # below what the filter's bidder needs to recognise it (signature; uu/b64: begin line + one body line) the cut stream is simply raw data
-                for t in self.step_cuts(mk, 2 if tier == 'quick' else 8):
+                for t in self.step_cuts(mk, 1 if tier == 'quick' else 8):
                     ops.append(f'run blk={blk} src={src} cons=A trunc={t} fault=- raw=1')
                 yield Case(f'trunc:raw:{filt}', ops)
 
